@@ -25,3 +25,9 @@ func (i *vfSwInst) Peering() *peering.Peering  { return i.p }
 func VfNewSwitch(p *peering.Peering, id *m.Address) *Switch {
 	return &Switch{instance: &vfSwInst{id: id, p: p}, routerInput: make(chan frame.Frame, 4)}
 }
+
+// VfRouterInput exposes the channel over which the switch hands frames to the router.
+func (s *Switch) VfRouterInput() chan frame.Frame { return s.routerInput }
+
+// VfHandleFrame runs one switching step.
+func (s *Switch) VfHandleFrame(f frame.Frame) error { return s.handleFrame(f) }
